@@ -14,6 +14,7 @@ import TfelVerif.C23.PropsN2a
 import TfelVerif.C23.PropsN2b
 import TfelVerif.C23.PropsN2c
 import TfelVerif.C23.PropsN2d
+import TfelVerif.C23.PropsStress
 
 namespace TfelVerif.C23.PropsN2Chains
 open TfelVerif TfelVerif.Mandel TfelVerif.C23
@@ -33,6 +34,24 @@ theorem N2_DTAU_DF__SPATIAL_MODULI (hc : c * c = 2) (h2 : (2:K) ≠ 0)
   unfold Gen.N2_DTAU_DF__SPATIAL_MODULI_r
   refine (PropsN2b.N2_DTAU_DF__C_TAU_JAUMANN c c3 fn hc h2 (hJ := hJ) ..).trans ?_
   exact PropsN2c.N2_C_TAU_JAUMANN__SPATIAL_MODULI c c3 fn hc h2 ..
+
+/-- `DS_DEGL ← SPATIAL_MODULI` (2D): along every variation `δF = L F` the converted operator, applied to the
+rate of its kinematic variable, gives the rate of the second Piola–Kirchhoff stress that reproduces the same Lie derivative of
+the Kirchhoff stress as the source operator (rate of the Lie derivative of the Kirchhoff stress) does. -/
+theorem N2_DS_DEGL__SPATIAL_MODULI (hc : c * c = 2) (h2 : (2:K) ≠ 0)
+    (D : Nat → Nat → K) (F0 : M3 K) (f0 f1 f2 f3 f4 : K) (l0 l1 l2 l3 l4 : K) (s : Nat → K) (hJ : (plane f0 f1 f2 f3 f4).det ≠ 0) :
+    upper (lamS (plane f0 f1 f2 f3 f4) (M3.ofMandel c [s 0, s 1, s 2, s 3]) (plane l0 l1 l2 l3 l4) (M3.ofMandel c (act (Gen.N2_DS_DEGL__SPATIAL_MODULI_r c c3 fn D (tensv F0) (tensv (plane f0 f1 f2 f3 f4)) s) (M3.mandel2 c (dE (plane f0 f1 f2 f3 f4) (plane l0 l1 l2 l3 l4))))))
+      = upper (lamSM (plane f0 f1 f2 f3 f4) (M3.ofMandel c [s 0, s 1, s 2, s 3]) (plane l0 l1 l2 l3 l4) (M3.ofMandel c (act (rowsOf D i4 i4) (M3.mandel2 c (symm (plane l0 l1 l2 l3 l4)))))) := by
+  have hFG := PropsStress.N2_invert c c3 fn f0 f1 f2 f3 f4 hc hJ
+  have T1 := PropsN2d.N2_SPATIAL_MODULI__DS_DEGL c c3 fn hc h2 D F0 (vecOf (Gen.N2_invert_r c c3 fn (tensv (plane f0 f1 f2 f3 f4)))) (dE (plane f0 f1 f2 f3 f4) (plane l0 l1 l2 l3 l4)).a00 (dE (plane f0 f1 f2 f3 f4) (plane l0 l1 l2 l3 l4)).a11 (dE (plane f0 f1 f2 f3 f4) (plane l0 l1 l2 l3 l4)).a22 (dE (plane f0 f1 f2 f3 f4) (plane l0 l1 l2 l3 l4)).a01 (dE (plane f0 f1 f2 f3 f4) (plane l0 l1 l2 l3 l4)).a10 s
+  have eL : plane (dE (plane f0 f1 f2 f3 f4) (plane l0 l1 l2 l3 l4)).a00 (dE (plane f0 f1 f2 f3 f4) (plane l0 l1 l2 l3 l4)).a11 (dE (plane f0 f1 f2 f3 f4) (plane l0 l1 l2 l3 l4)).a22 (dE (plane f0 f1 f2 f3 f4) (plane l0 l1 l2 l3 l4)).a01 (dE (plane f0 f1 f2 f3 f4) (plane l0 l1 l2 l3 l4)).a10 = dE (plane f0 f1 f2 f3 f4) (plane l0 l1 l2 l3 l4) := by m3_poly
+  rw [eL] at T1
+  have e : M3.ofTens [vecOf (Gen.N2_invert_r c c3 fn (tensv (plane f0 f1 f2 f3 f4))) 0, vecOf (Gen.N2_invert_r c c3 fn (tensv (plane f0 f1 f2 f3 f4))) 1, vecOf (Gen.N2_invert_r c c3 fn (tensv (plane f0 f1 f2 f3 f4))) 2, vecOf (Gen.N2_invert_r c c3 fn (tensv (plane f0 f1 f2 f3 f4))) 3, vecOf (Gen.N2_invert_r c c3 fn (tensv (plane f0 f1 f2 f3 f4))) 4] = M3.ofTens (Gen.N2_invert_r c c3 fn (tensv (plane f0 f1 f2 f3 f4))) := rfl
+  rw [e, symm_of_symmetric h2 (dE_transpose (plane f0 f1 f2 f3 f4) (plane l0 l1 l2 l3 l4)), dE_inv h2 hFG (plane l0 l1 l2 l3 l4)] at T1
+  unfold lamSM lamS at T1
+  unfold lamSM lamS Gen.N2_DS_DEGL__SPATIAL_MODULI_r
+  have hX := eq_of_upper (ofMandel_symm c _) (conj_symm (ofMandel_symm c _)) T1
+  rw [pull_back_alg hFG hX]
 
 /-- `DSIG_DF ← DS_DEGL` (2D): along every variation `δF = L F` the converted operator, applied to the
 rate of its kinematic variable, gives the rate of the Cauchy stress that reproduces the same Lie derivative of
